@@ -105,11 +105,16 @@ def run_shard(types, tier, seed):
         res.violations.append(common.violation("C02.build", "api-does-not-build:" + type(e1).__name__, xt.features(t), dict(type=t, type_str=xt.show(t)), repr(e1)[-1500:]))
         return res
     n = 0
-    for t in types:
-        for vmode in ("ramp", "extreme", "minimal"):
+    for ti, t in enumerate(types):
+        for vmode in ("ramp", "extreme", "minimal", "ramp:bytearray"):
+            kind = "np"
+            if vmode.endswith(":bytearray"):  # the same calls on an object living in a BufferByteArray
+                if ti % 3:
+                    continue
+                vmode, kind = "ramp", "ba"
             v = xt.gen(t, vmode)
             try:
-                obj, buf = cseam.place_object(t, v, seed)
+                obj, buf = cseam.place_object(t, v, seed, kind)
                 if not xt.veq(xt.read(t, obj), v):
                     res.skipped["initial-readback(C01's business)"] += 1
                     continue
